@@ -1259,7 +1259,9 @@ def run(rep, tier):
         "instruction's own element / entry, case i runs block i; the `*_free` helper table agrees kind by kind with "
         "core's `needs_deallocate` (owns / owns nothing / walks the same components), payloads are freed under their "
         "discriminant, buffers after their elements; `{snake}_string_free` frees once under len > 0 and resets; every "
-        "type that receives a C name in define_live_types also reaches define_dtor (handles excepted), `dtor_funcs` is "
+        "type that receives a C name in define_live_types also reaches define_dtor — or, when its C name was already "
+        "defined for another TypeId, unconditionally takes over the helper registered for the first TypeId recorded in "
+        "`prim_names` under that very name — (handles excepted), `dtor_funcs` is "
         "trimmed like `type_names` when exports start, and cabi_realloc hands out no heap memory for size 0 (the reason "
         "for the len > 0 guards). "
         "(R11.4) no other instruction template and no import wrapper frees or drops; list/string/map lowering emits no "
